@@ -151,6 +151,8 @@ inductive Step
   | done (s : St)
   | skip
   | panic
+  /-- a call at an index that does not exist came back (the code panics there) -/
+  | returned
 
 def ofOutcome (s : St) (o : Outcome Field) : Step :=
   match o with
@@ -217,7 +219,11 @@ def apply (s : St) (f : List String) : Step :=
     | .skip => .skip
     | o =>
       match entryPos s.items i with
-      | none => .skip
+      | none =>
+        -- no such entry: the call is made and panics (`unwrap`) before it touches the tree
+        (match o with
+         | .ok e _ => (match s.field.replace i e with | .panic _ => .panic | .ok _ => .returned)
+         | _ => .skip)
       | some pos =>
         match o with
         | .skip => .skip
@@ -231,7 +237,8 @@ def apply (s : St) (f : List String) : Step :=
   | ["rme", mode, i] =>
     let i := natOf i
     match entryPos s.items i with
-    | none => .skip
+    | none =>
+      if mode == "f" then (match s.field.removeEntry i with | .panic _ => .panic | .ok _ => .returned) else .skip
     | some pos =>
       let id := (s.items[pos]?.map (·.id)).getD 0
       let target :=
@@ -271,7 +278,11 @@ def apply (s : St) (f : List String) : Step :=
       match entryPos s.items i with
       | none => .skip
       | some pos =>
-        if j ≥ ((altsOf s.items i).map List.length).getD 0 then .skip else
+        if j ≥ ((altsOf s.items i).map List.length).getD 0 then
+          (match r?, mode == "f", nthNode .ENTRY s.field.kids i with
+           | some r, true, some p => (match s.field.entryReplaceAt p j r with | .panic _ => .panic | .ok _ => .returned)
+           | _, _, _ => .skip)
+        else
         let id := (s.items[pos]?.map (·.id)).getD 0
         match r? with
         | none => .panic
@@ -291,7 +302,9 @@ def apply (s : St) (f : List String) : Step :=
     | none => .skip
     | some pos =>
       let alts := (altsOf s.items i).getD []
-      if j ≥ alts.length then .skip else
+      if j ≥ alts.length then
+        (if mode == "f" then (match s.field.removeRelation i j with | .panic _ => .panic | .ok _ => .returned) else .skip)
+      else
       let id := (s.items[pos]?.map (·.id)).getD 0
       let rid := alts[j]?.getD 0
       let target : Option (Nat × Nat) :=
@@ -388,6 +401,7 @@ def runHist (start : Str) (allow : Bool) (ops : String) : String :=
     | o :: rest =>
       match apply s (o.splitOn ".") with
       | .panic => (s!"{o} => PANIC" :: acc).reverse
+      | .returned => (s!"{o} => RETURNED" :: acc).reverse
       | .skip => go s rest (s!"{o} => SKIP" :: acc)
       | .done s' =>
         go s' rest (s!"{o} => {encStr s'.field.root.text} {dump s'.field.root} H[{showHandles s'.field}]" :: acc)
